@@ -34,8 +34,13 @@ DofStart(bs, i) == LET RECURSIVE S(_) S(j) == IF j = 1 THEN 0 ELSE S(j - 1) + bs
 DofAdr(bs) == LET n == DofStart(bs, Len(bs) + 1) IN
   [d \in 0..(n - 1) |-> LET i == CHOOSE j \in 1..Len(bs) : DofStart(bs, j) <= d /\ d < DofStart(bs, j) + bs[j].size IN
                         CASE Class(bs[i]) = "compact" -> -2 [] Class(bs[i]) = "sparse" -> -1 [] OTHER -> Off(bs, i)]
-RandBlock(u) == LET s == RandomElement(Sizes)  kd == RandomElement(Kinds) IN
-                [size |-> s, kind |-> IF kd = "compact" /\ s > 3 THEN "tri" ELSE IF kd = "other" /\ s < 3 THEN "tri" ELSE kd]
+\* how the dofs of a coupled block are spread over its bodies: one hinge each / ball joints (3 per body) / slide+hinge stacked on one body (2 per body)
+\* / a free root (6) followed by hinges.  The layout class does not depend on it (Class reads size and kind only); the factor-and-solve routines must not either.
+Mixes == {"hinge", "ball", "stacked", "free"}
+RandBlock(u) == LET s == RandomElement(Sizes)  kd == RandomElement(Kinds)
+                    kd2 == IF kd = "compact" /\ s > 3 THEN "tri" ELSE IF kd = "other" /\ s < 3 THEN "tri" ELSE kd
+                    mx == RandomElement(Mixes) IN
+                [size |-> s, kind |-> kd2, mix |-> IF kd2 = "compact" \/ s < 3 \/ (mx = "free" /\ s < 8) \/ (kd2 = "other" /\ s < 7) THEN "hinge" ELSE mx]
 RandBlocks(u) == [i \in 1..RandomElement(1..MaxBlocks) |-> RandBlock(i)]
 Init == blocks = RandBlocks(0) /\ k = 1
 Next == k < NCfg /\ blocks' = RandBlocks(k) /\ k' = k + 1
